@@ -16,7 +16,7 @@ from facts import AnalysisBroken
 from prog import walk, kids, short
 from rules.atoms import cn, conj, facts_atoms, norm_atom, _unbool
 from rules.bound import Bound, hull
-from rules.common import strip_casts, const_of, guard_facts, counting_for
+from rules.common import strip_casts, const_of, guard_facts, counting_for, for_init_const
 from rules.effects import single_def
 
 LEVEL = 'other'
@@ -142,7 +142,8 @@ def r2(ctx, p):
                    [x.get('cv') for x in walk(bound) if x['k'] == 'SubstNonTypeTemplateParmExpr']
             lhs = kids(st[0])[0] if st[0]['k'] == 'BinaryOperator' else kids(st[0])[1]
             rhs = kids(st[0])[-1]
-            full = bool(cf) and cf[0] == 0 and cf[2] == '<' and 'data_[' in cn(clear, lhs)
+            full = bool(cf) and for_init_const(loops[0]) == 0 and cf[2] == '<' and 'data_[' in cn(clear, lhs) and \
+                const_of(strip_casts(cf[1])) == const_of(strip_casts(_size_of(p, cta)))
             r = _unbool(rhs)
             while r['k'] in ('MaterializeTemporaryExpr', 'CXXBindTemporaryExpr', 'ExprWithCleanups', 'CXXFunctionalCastExpr') and kids(r):
                 r = _unbool(kids(r)[-1])
@@ -204,6 +205,11 @@ def r2(ctx, p):
 
 
 # ---------------------------------------------------------------------------------------------------------------------------
+def _size_of(p, cta):
+    """the Size template argument as a pseudo node"""
+    return {'k': 'IntegerLiteral', 'cv': int(cta.split(',')[-1])}
+
+
 def limits(p):
     mate = p.val('engine::VALUE_MATE')
     md = p.val('engine::MAX_DEPTH')
